@@ -642,18 +642,33 @@ impl Connection {
             trace!("Sending DIST_HEADER control: total_len={}", encoded.len());
         }
 
+        let timeout = self.config.timeout;
         let stream = self
             .transport
             .write_half_mut()
             .ok_or_else(|| Error::InvalidStateMessage("no active stream".to_string()))?;
 
-        tokio::time::timeout(self.config.timeout, stream.write_all(&buf))
-            .await
-            .map_err(|_| Error::Timeout(self.config.timeout))??;
+        let written: Result<()> = async {
+            tokio::time::timeout(timeout, stream.write_all(&buf))
+                .await
+                .map_err(|_| Error::Timeout(timeout))??;
 
-        tokio::time::timeout(self.config.timeout, stream.flush())
-            .await
-            .map_err(|_| Error::Timeout(self.config.timeout))??;
+            tokio::time::timeout(timeout, stream.flush())
+                .await
+                .map_err(|_| Error::Timeout(timeout))??;
+
+            Ok(())
+        }
+        .await;
+
+        if let Err(e) = written {
+            // The frame may have gone out in part (a timed-out write is cancelled wherever it
+            // stood). Anything written after it would be read by the peer as the rest of this
+            // frame, so the stream cannot be used any more.
+            self.transport.close();
+            self.handshake.disconnect();
+            return Err(e);
+        }
 
         trace!("Sent control message: {:?}", control);
 
